@@ -468,6 +468,15 @@ func runCase(raw json.RawMessage) interface{} {
 	if c.Mode == "nodeseq" {
 		return runNodeSeq(c)
 	}
+	if c.Mode == "stress" {
+		return runStress(c)
+	}
+	if c.Mode == "hybrid2" {
+		return runHybrid2(c)
+	}
+	if c.Mode == "uniqwrap" {
+		return runUniqWrap(c)
+	}
 	if c.Mode == "wrap" {
 		return runWrap(c)
 	}
